@@ -41,6 +41,9 @@ theorem pad1d_getElem (r : Rule) (fill : α) (lo hi : Nat) (xs : List α) (p : N
     (pad1d r fill lo hi xs)[p] = ext r fill xs ((p : Int) - (lo : Int)) := by
   simp [pad1d]
 
+theorem getD_eq_getElem' (l : List α) (j : Nat) (d : α) (h : j < l.length) : l.getD j d = l[j] := by
+  simp [List.getD_eq_getElem?_getD, h]
+
 theorem ext_inrange (r : Rule) (fill : α) (xs : List α) (p : Nat) (h : p < xs.length) :
     ext r fill xs (p : Int) = xs[p] := by
   have hp : (p : Int) < xs.length := by omega
